@@ -63,7 +63,11 @@ Definition K_EXPLICIT_TN := 20.    (* Attributes._explicit_type_name *)
 Definition K_TYPE_NAME := 21.      (* only ever a keyword argument *)
 Definition K_MIN_BOUND := 22.
 Definition K_MAX_BOUND := 23.
-(* 24.. : attributes that _s_customize stores with a plain setattr *)
+(* 24..30 : attributes that _s_customize stores with a plain setattr *)
+Definition K_ENCODING := 31.       (* ByteArray.Attributes.encoding *)
+Definition K_PROT := 32.           (* Attributes.prot: set by 'prot', 'protocol' and 'p' *)
+Definition K_PROTOCOL := 33.       (* only ever a keyword argument *)
+Definition K_P := 34.              (* only ever a keyword argument *)
 
 Definition kwargs := list (akey * aval).
 
@@ -98,7 +102,9 @@ Record store := mkstore {
   cl : list cls;
   variants : list (cid * cid);                     (* (root, variant), registration order *)
   dca : list (cid * list (fname * kwargs));
-  dcaa : list (cid * kwargs)
+  dcaa : list (cid * kwargs);
+  protos : list (Z * kwargs)       (* caller data: type_attrs of the protocol objects that may be
+                                      passed as prot= / protocol= / p=; no operation writes it *)
 }.
 
 (** outcome of a modelled operation: a value, a Python exception, or "outside
@@ -181,7 +187,7 @@ Definition nth_cls (l : list cls) (c : cid) : option cls :=
 Definition lookup (s : store) (c : cid) : option cls := nth_cls (cl s) c.
 
 Definition with_cl (s : store) (l : list cls) : store :=
-  mkstore l (variants s) (dca s) (dcaa s).
+  mkstore l (variants s) (dca s) (dcaa s) (protos s).
 Definition alloc (s : store) (r : cls) : store * cid := (with_cl s (cl s ++ [r]), size s).
 
 Fixpoint list_upd {A} (l : list A) (n : nat) (f : A -> A) : list A :=
@@ -201,11 +207,11 @@ Definition set_tname (t : tn) (r : cls) : cls :=
   mkcls (c_kind r) (c_base r) (c_attrs r) (Some t) (c_orig r) (c_extends r) (c_fields r).
 
 Definition add_variant (s : store) (root v : cid) : store :=
-  mkstore (cl s) (variants s ++ [(root, v)]) (dca s) (dcaa s).
+  mkstore (cl s) (variants s ++ [(root, v)]) (dca s) (dcaa s) (protos s).
 Definition set_dca (s : store) (c : cid) (d : list (fname * kwargs)) : store :=
-  mkstore (cl s) (variants s) ((c, d) :: dca s) (dcaa s).
+  mkstore (cl s) (variants s) ((c, d) :: dca s) (dcaa s) (protos s).
 Definition set_dcaa (s : store) (c : cid) (d : kwargs) : store :=
-  mkstore (cl s) (variants s) (dca s) ((c, d) :: dcaa s).
+  mkstore (cl s) (variants s) (dca s) ((c, d) :: dcaa s) (protos s).
 Definition variants_of (s : store) (root : cid) : list cid :=
   map snd (filter (fun p => fst p =? root) (variants s)).
 
@@ -289,7 +295,7 @@ Definition flat (s : store) (c : cid) := flat_f FUEL (cl s) c.
 (** * observation of a class: the structural snapshot the property names *)
 Definition obs_keys : list akey :=
   [0; 1; 2; 3; 4; 5; 6; 7; 8; 9; 10; 11; 12; 13; 14; 15; 16; 17; 18; 19; 20; 22; 23;
-   24; 25; 26; 27; 28; 29; 30].
+   24; 25; 26; 27; 28; 29; 30; 31; 32].
 
 Inductive snap :=
 | SBad                      (* dangling identity *)
@@ -341,6 +347,7 @@ Definition apply_kwarg (kv : akey * aval) (acc : list (akey * aval)) : list (ake
   let (k, v) := kv in
   if (k <? 0) || (k =? K_EXPLICIT_TN) then acc                  (* leading underscore: ignored *)
   else if k =? K_TYPE_NAME then (K_EXPLICIT_TN, VBool true) :: acc
+  else if (k =? K_PROTOCOL) || (k =? K_P) then (K_PROT, v) :: acc
   else if k =? K_EXC_TABLE then (K_EXC_TABLE, v) :: (K_EXC_DB, v) :: acc
   else if (k =? K_MAX_OCCURS) && is_unbounded v then (K_MAX_OCCURS, VInf) :: acc
   else (k, v) :: acc.
@@ -350,6 +357,33 @@ Fixpoint apply_kwargs (kw : kwargs) (acc : list (akey * aval)) : list (akey * av
   | kv :: r => apply_kwargs r (apply_kwarg kv acc)
   end.
 
+(** kwargs.get(k, None) *)
+Definition kwget (kw : kwargs) (k : akey) : option aval :=
+  match zassoc k kw with Some VNone => None | x => x end.
+
+(** the protocol named by the keywords: kwargs.get('protocol') or
+    kwargs.get('prot') or kwargs.get('p'), and the keyword set _s_customize
+    works with: a COPY of the protocol's type_attrs updated with the keywords,
+    when the protocol declares any *)
+Definition prot_of (kw : kwargs) : option aval :=
+  match kwget kw K_PROTOCOL with
+  | Some v => Some v
+  | None => match kwget kw K_PROT with Some v => Some v | None => kwget kw K_P end
+  end.
+Fixpoint zd_update {V} (l items : list (Z * V)) : list (Z * V) :=
+  match items with
+  | [] => l
+  | (k, v) :: r => zd_update (zd_set k v l) r
+  end.
+Definition eff_kw (s : store) (kw : kwargs) : kwargs :=
+  match prot_of kw with
+  | Some (VInt p) => match zassoc p (protos s) with
+                     | Some (x :: ta) => zd_update (x :: ta) kw
+                     | _ => kw
+                     end
+  | _ => kw
+  end.
+
 (** the fresh [class Attributes(cls.Attributes): _explicit_type_name = False]
     plus the re-initialised 'nillable' property *)
 Definition fresh_attrs (s : store) (c : cid) : list (akey * aval) :=
@@ -357,10 +391,6 @@ Definition fresh_attrs (s : store) (c : cid) : list (akey * aval) :=
   | Some v => [(K_NULLABLE, v); (K_EXPLICIT_TN, VBool false)]
   | None => [(K_EXPLICIT_TN, VBool false)]
   end.
-
-(** kwargs.get(k, None) *)
-Definition kwget (kw : kwargs) (k : akey) : option aval :=
-  match zassoc k kw with Some VNone => None | x => x end.
 
 (** numbers as compared by Python: int against Decimal('inf') *)
 Definition num_ltb (a b : aval) : option bool :=
@@ -455,7 +485,7 @@ Definition customize_simple (s : store) (c : cid) (kw : kwargs) : res (store * c
     match c_kind r with
     | KSimple fam =>
       dor kw1 <- (match fam with FDecimal => decimal_pre s c kw | _ => ROk kw end);
-      let own := apply_kwargs kw1 (fresh_attrs s c) in
+      let own := apply_kwargs (eff_kw s kw1) (fresh_attrs s c) in
       let dflt := is_default fam (res_own own s c) in
       let tnm := match zassoc K_TYPE_NAME kw1 with Some (VStr t) => TStr t | _ => TEmpty end in
       ROk (alloc s (mkcls (KSimple fam) (Some c) own
@@ -465,6 +495,57 @@ Definition customize_simple (s : store) (c : cid) (kw : kwargs) : res (store * c
                           []))
     | _ => RBad 2
     end
+  end.
+
+(** * calling a primitive with keywords, T(kw):  SimpleModel.__new__ is customize();
+    ByteArray.__new__ first normalises an 'encoding' keyword THAT IS GIVEN and
+    names the type after it *)
+Definition t_enc_default : text := [85; 83; 69; 95; 68; 69; 70; 65; 85; 76; 84].                 (* USE_DEFAULT *)
+Definition t_enc_base64 : text := [66; 65; 83; 69; 54; 52].                                      (* BASE64 *)
+Definition t_enc_hex : text := [72; 69; 88].                                                     (* HEX *)
+Definition t_enc_urlsafe : text := [85; 82; 76; 83; 65; 70; 69; 95; 66; 65; 83; 69; 54; 52].     (* URLSAFE_BASE64 *)
+Definition t_base64 : text := [98; 97; 115; 101; 54; 52].
+Definition t_base64Binary : text := [98; 97; 115; 101; 54; 52; 66; 105; 110; 97; 114; 121].
+Definition t_urlsafe_base64 : text := [117; 114; 108; 115; 97; 102; 101; 95; 98; 97; 115; 101; 54; 52].
+Definition t_hex : text := [104; 101; 120].
+Definition t_hexBinary : text := [104; 101; 120; 66; 105; 110; 97; 114; 121].
+Definition t_string : text := [115; 116; 114; 105; 110; 103].
+
+Definition enc_norm (v : aval) : option (aval * option text) :=
+  match v with
+  | VNone => Some (VStr t_enc_default, None)
+  | VStr t =>
+    if text_eqb t t_base64 || text_eqb t t_base64Binary || text_eqb t t_enc_base64
+    then Some (VStr t_enc_base64, Some t_base64Binary)
+    else if text_eqb t t_urlsafe_base64 || text_eqb t t_enc_urlsafe
+    then Some (VStr t_enc_urlsafe, Some t_string)
+    else if text_eqb t t_hex || text_eqb t t_hexBinary || text_eqb t t_enc_hex
+    then Some (VStr t_enc_hex, Some t_hexBinary)
+    else None
+  | _ => None
+  end.
+
+Definition bytearray_new (s : store) (c : cid) (kw : kwargs) : res (store * cid) :=
+  match zassoc K_ENCODING kw with                 (* 'encoding' in kwargs *)
+  | None => customize_simple s c kw
+  | Some v =>
+    match enc_norm v with
+    | None => RExn AttributeError   (* the "raise ValueError(... ByteArray._encoding.handlers ...)" line itself
+                                       fails: there is no ByteArray._encoding *)
+    | Some (e, tn) =>
+      dor (s1, n) <- customize_simple s c (zd_set K_ENCODING e kw);
+      ROk (match tn with Some t => upd s1 n (set_tname (TStr t)) | None => s1 end, n)
+    end
+  end.
+
+Definition call_simple (s : store) (c : cid) (kw : kwargs) : res (store * cid) :=
+  match lookup s c with
+  | None => RBad 1
+  | Some r => match c_kind r with
+              | KSimple FByteArray => bytearray_new s c kw
+              | KSimple _ => customize_simple s c kw
+              | _ => RBad 3
+              end
   end.
 
 Definition CID_COMPLEXMODEL : cid := 0.
@@ -481,7 +562,7 @@ Definition customize_plain (s : store) (c : cid) (kw : kwargs) : res (store * ci
       match get_tname s c with
       | None => RBad 4
       | Some t0 =>
-        let own := apply_kwargs kw (fresh_attrs s c) in
+        let own := apply_kwargs (eff_kw s kw) (fresh_attrs s c) in
         let tnm := match zassoc K_TYPE_NAME kw with Some (VStr t) => TStr t | _ => t0 end in
         let root := orig_or_self r c in
         let (s1, n) := alloc s (mkcls k (Some c) own (Some tnm) (Some root)
@@ -789,6 +870,7 @@ Inductive op :=
              (noexc : option (list (fname * kwargs)))
 | OArray (base : cid) (t : cid) (kw : kwargs)
 | OMandatory (c : cid)
+| OCall (c : cid) (kw : kwargs)
 | OSubclass (parent : cid) (name : text) (fs : list (fname * cid))
 | OAppend (c : cid) (k : fname) (t : cid)
 | OInsert (c : cid) (i : Z) (k : fname) (t : cid).
@@ -799,6 +881,7 @@ Definition step (s : store) (o : op) : res (store * option cid) :=
   | OCustomize c kw ca caa ne => dor (s1, n) <- customize s c kw ca caa ne; ROk (s1, Some n)
   | OArray b t kw => dor (s1, n) <- make_array s b t kw; ROk (s1, Some n)
   | OMandatory c => dor (s1, n) <- mandatory FUEL s c; ROk (s1, Some n)
+  | OCall c kw => dor (s1, n) <- call_simple s c kw; ROk (s1, Some n)
   | OSubclass p nm fs => dor (s1, n) <- subclass s p nm fs; ROk (s1, Some n)
   | OAppend c k t => dor s1 <- append_field s c k t; ROk (s1, None)
   | OInsert c i k t => dor s1 <- insert_field s c i k t; ROk (s1, None)
@@ -916,6 +999,7 @@ Definition hop (p : pool) (o : op) : option op :=
   | OArray b t kw =>
       match hget p b, hget p t with Some b', Some t' => Some (OArray b' t' kw) | _, _ => None end
   | OMandatory h => match hget p h with Some c => Some (OMandatory c) | None => None end
+  | OCall h kw => match hget p h with Some c => Some (OCall c kw) | None => None end
   | OSubclass h nm fs =>
       match hget p h, hfields p fs with
       | Some c, Some fs' => Some (OSubclass c nm fs') | _, _ => None end
